@@ -85,8 +85,10 @@ def main():
                 ncmp = 0
                 for n, vs in exp.items():
                     gs = got.get(n)
-                    if gs is None or len(gs) != len(vs):
-                        bad = "observation %s missing / different count (path differs)" % n
+                    if gs is None:
+                        continue          # not observed in concrete mode
+                    if len(gs) != len(vs):
+                        bad = "observation %s: different count (control path differs)" % n
                         break
                     for a, b in zip(vs, gs):
                         ncmp += 1
@@ -95,6 +97,9 @@ def main():
                             break
                     if bad:
                         break
+                if bad is None and ncmp == 0:
+                    results.append(dict(ok=False, skipped=True, detail='nothing comparable'))
+                    continue
                 results.append(dict(ok=bad is None, detail=bad, compared=ncmp))
                 continue
             # violation / known: direct replay first
